@@ -1,4 +1,5 @@
 import CstModel.Props.C06
+import CstModel.Props.GenNode
 open Cst.C06
 #print axioms Cst.Conc.inv_step
 #print axioms facts_ok
@@ -15,3 +16,7 @@ open Cst.C06
 #print axioms teardown_safe
 #print axioms teardown_counter
 #print axioms teardown_shape_facts
+#print axioms Cst.Gen.n_clone
+#print axioms Cst.Gen.n_drop
+#print axioms Cst.Gen.n_try_write
+#print axioms Cst.Gen.facts_agree
